@@ -383,6 +383,44 @@ func Run(r *core.Run) {
 		r.Class("nonce-sweep")
 	})
 	r.Require("nonce-sweep", 1000)
+	// keys that carry members of another key type (n and / or e beside an EC / OKP key): members like any other - the commitment
+	// is made over the key as given, and the reveal value that the parser reports for an update / recover / deactivate signed with
+	// it must map to that commitment
+	for ti, t := range keys.Types {
+		for vi, ne := range [][2]string{{"AQAB-modulus", "AQAB"}, {"n-only", ""}, {"", "AQAB"}} {
+			for _, nonce := range []string{"", "AQIDBAUGBwgJCgsMDQ4PEA"} {
+				signer := keys.New(t, 4200+ti).WithNonce(nonce).WithNE(ne[0], ne[1])
+				next := keys.New("P-256", 4300+ti).WithNE(ne[1], ne[0])
+				for oi, b := range [][]byte{ops.Bytes(ops.ValidUpdate("EiForeignMembers", signer, next, patch, 18, ops.Window{})),
+					ops.Bytes(ops.ValidDeactivate("EiForeignMembers", signer, 18, ops.Window{}))} {
+					b, oi := b, oi
+					id := fmt.Sprintf("foreign-members/%s/%d/nonce-%v/op%d", t, vi, nonce != "", oi)
+					r.Case(id, func() *core.Fail {
+						det := map[string]any{"op": string(b)}
+						parser := operationparser.New(ops.Proto())
+						rv, err := parser.GetRevealValue(b)
+						if err != nil {
+							return &core.Fail{Key: id, What: "GetRevealValue failed on a well-formed operation whose key carries n / e members: " + err.Error(), Detail: det}
+						}
+						if c, err := commitment.GetCommitmentFromRevealValue(rv); err != nil || c != ops.Commitment(signer, 18) {
+							return &core.Fail{Key: id, What: fmt.Sprintf("reveal value maps to commitment %q (%v), the signing key's commitment is %q", c, err, ops.Commitment(signer, 18)), Detail: det}
+						}
+						if c, err := commitment.GetCommitment(signer.JWK(), 18); err != nil || c != ops.Commitment(signer, 18) {
+							return &core.Fail{Key: id, What: fmt.Sprintf("GetCommitment gives %q (%v), the hash of the canonical key is %q", c, err, ops.Commitment(signer, 18)), Detail: det}
+						}
+						if oi == 0 {
+							if nc, err := parser.GetCommitment(b); err != nil || nc != ops.Commitment(next, 18) {
+								return &core.Fail{Key: id, What: fmt.Sprintf("parser reports next commitment %q (%v), expected %q", nc, err, ops.Commitment(next, 18)), Detail: det}
+							}
+						}
+						return nil
+					})
+					r.Observe("edge", string(b))
+					r.Class("foreign-members")
+				}
+			}
+		}
+	}
 	// hash length limit sweep: the largest hash length a protocol allows, set to exactly the length of its multihashes, one more
 	// and the default - a limit is a largest allowed value, so a commitment or reveal value of exactly that length is well-formed
 	for _, code := range []uint64{18, 19} {
